@@ -61,9 +61,16 @@ def _all_cells():
                         uses = ["after"]
                         if flavor == "coro":
                             uses += ["after_await", "await_in_arm"]
+                        if nest == "none":
+                            uses = uses + ["in_sibling"]
                         for use in uses:
                             for defkind in ("arith", "rtindex"):
                                 cells.append([flavor, sk, mask, predef, nest, use, defkind])
+                        if mask == 0 and predef == 1:
+                            # explicit Temporary(..., maybe_uninitialized=True): exempt from the branch analysis, but still
+                            # not allowed to live across states
+                            for use in uses:
+                                cells.append([flavor, sk, mask, predef, nest, use, "mu"])
     return cells
 
 
@@ -107,7 +114,7 @@ def build_cell(cell):
     outputs = [{"name": "ov0", "kind": "u", "default": 1}, {"name": "ov1", "kind": "u", "default": 2},
                {"name": "ob0", "kind": "bit", "default": 0}]
     n = N_ARMS[sk]
-    if defkind == "arith":
+    if defkind in ("arith", "mu"):
         exprs = [["add", ["in", "iv0"], ["const", k + 1]] for k in range(3)] + [["xor", ["in", "iv0"], ["in", "iv1"]]]
         pre_expr = ["inv", ["in", "iv1"]]
         use_stmt = {"k": "assign", "t": {"name": "ov0"}, "e": ["loc", "t"]}
@@ -124,6 +131,8 @@ def build_cell(cell):
             body.append({"k": "bind", "bind": "t", "e": exprs[k]})
         if use == "await_in_arm" and k == 0:
             body.append({"k": "await", "c": ["in", "ib2"]})
+        if use == "in_sibling" and k == n - 1 and n > 1:
+            body.append(use_stmt)  # the use sits in the last arm, a sibling of the defining arm(s)
         return body
 
     conds = [["in", "ib0"], ["in", "ib1"]]
@@ -150,7 +159,7 @@ def build_cell(cell):
     if flavor == "coro":
         body.append({"k": "assign", "t": {"name": "ov1"}, "e": ["in", "iv1"]})
     if predef:
-        body.append({"k": "bind", "bind": "t", "e": pre_expr})
+        body.append({"k": "bind", "bind": "t", "e": pre_expr, "mu": defkind == "mu"})
     body += inner
     crosses_await = False
     if use == "after_await":
@@ -160,10 +169,19 @@ def build_cell(cell):
         # the await sits inside arm 0 after its binding: a use after the construct then consumes, on that path,
         # an intermediate computed before the await
         crosses_await = bool(mask & 1) or bool(predef)
-    body.append(use_stmt)
-    must_reject = (not predef and not all_paths_define) or crosses_await
+    if use == "in_sibling":
+        if n == 1:
+            body.append(use_stmt)  # single-arm skeletons: same as "after"
+            must_reject = (not predef and not all_paths_define) or crosses_await
+        else:
+            must_reject = not predef and not (mask >> (n - 1) & 1)
+    else:
+        body.append(use_stmt)
+        must_reject = (not predef and not all_paths_define) or crosses_await
     if not mask and not predef:
         must_reject = True  # t is never bound at all
+    if use == "in_sibling" and n > 1 and not has_else and sk.startswith("if") is False:
+        pass
     spec = {"W": W, "inputs": inputs, "outputs": outputs, "sigs": [], "vars": [], "helpers": [], "subs": [],
             "ctx": {"type": flavor, "reset": None}, "body": body}
     return spec, must_reject, bool(mask)
